@@ -33,6 +33,32 @@ class quiet_rx_log:
         return False
 
 
+def now_us():
+    """Fake clock in integer microseconds since det.EPOCH."""
+    d = det.now() - det.EPOCH
+    return (d.days * 86400 + d.seconds) * 1000000 + d.microseconds
+
+
+def number(threads):
+    """Pre-order numbering of the schedule operations ['s', *meta, body] of a program (list of operation lists, one
+    per thread).  Returns (ids, meta): ids mirrors the program (per operation: (sid, ids of body) or None),
+    meta[sid] = tuple(op[1:-1])."""
+    meta = []
+
+    def walk(ops):
+        out = []
+        for op in ops:
+            if op[0] == "s":
+                sid = len(meta)
+                meta.append(tuple(op[1:-1]))
+                out.append((sid, walk(op[-1])))
+            else:
+                out.append(None)
+        return out
+
+    return [walk(t) for t in threads], meta
+
+
 def drive(case, build, judge, facts, nt_labels, kw, sig_suffix=""):
     """Run a DET case and return a vlib.core Result.  `nt_labels`: a run is non-trivial when one of its fact labels
     is in this set.  `kw`: keyword arguments for det.run_program (max_steps, reuse_threads, ...)."""
